@@ -63,6 +63,14 @@ func runContend(c ContendCase) (msg string, inconcl string) {
 		if c.Mode == "same-link" || c.Mode == "link-vs-atomic" {
 			fs.AtomicCreate(dir, "s", []byte("src"))
 		}
+		var shared filesys.File
+		if c.Mode == "shared-append" {
+			f, ok := fs.Create(dir, "log")
+			if !ok {
+				return fmt.Sprintf("round %d: Create of a fresh name failed", r), ""
+			}
+			shared = f
+		}
 		oks := make([]bool, c.K)
 		fds := make([]filesys.File, c.K)
 		panics := make([]string, c.K)
@@ -139,6 +147,16 @@ func runContend(c ContendCase) (msg string, inconcl string) {
 						}
 					}
 					fs.Close(f)
+				case "shared-append":
+					// every goroutine appends its own records through ONE shared descriptor; goroutine 0
+					// appends large records (they force the buffer to be re-allocated), the others small ones
+					for j := 0; j < 12; j++ {
+						n := 16
+						if i == 0 {
+							n = 40000
+						}
+						fs.Append(shared, sharedRecord(i, j, n))
+					}
 				case "same-create":
 					fds[i], oks[i] = fs.Create(dir, "a")
 				case "same-link":
@@ -191,6 +209,14 @@ func runContend(c ContendCase) (msg string, inconcl string) {
 			}
 		}
 		switch c.Mode {
+		case "shared-append":
+			fs.Close(shared)
+			f := fs.Open(dir, "log")
+			got := append([]byte{}, fs.ReadAt(f, 0, 1<<22)...)
+			fs.Close(f)
+			if m := checkSharedLog(got, c.K); m != "" {
+				return fmt.Sprintf("round %d: %d goroutines appended through one shared descriptor: %s", r, c.K, m), ""
+			}
 		case "same-create":
 			closeAll()
 			if nok != 1 {
@@ -252,6 +278,48 @@ func runContend(c ContendCase) (msg string, inconcl string) {
 	return "", ""
 }
 
+// sharedRecord is the j-th record of goroutine i: a 16-byte header (magic, writer, sequence number,
+// length) followed by a payload determined by the header.
+func sharedRecord(i, j, n int) []byte {
+	b := make([]byte, n)
+	copy(b, []byte{0xA5, 0x5A, byte(i), byte(j), byte(n), byte(n >> 8), byte(n >> 16), 0xC3})
+	for k := 8; k < n; k++ {
+		b[k] = byte(k*7 + i*31 + j*13)
+	}
+	return b
+}
+
+// checkSharedLog checks that the log is a sequence of whole records, each written record exactly
+// once, and every writer's records in the order it appended them.
+func checkSharedLog(got []byte, k int) string {
+	next := make([]int, k)
+	off := 0
+	for off < len(got) {
+		if len(got)-off < 8 || got[off] != 0xA5 || got[off+1] != 0x5A || got[off+7] != 0xC3 {
+			return fmt.Sprintf("no record header at offset %d of %d (an append was torn or overwritten)", off, len(got))
+		}
+		i, j := int(got[off+2]), int(got[off+3])
+		n := int(got[off+4]) | int(got[off+5])<<8 | int(got[off+6])<<16
+		if i >= k || n < 8 || off+n > len(got) {
+			return fmt.Sprintf("damaged record header at offset %d", off)
+		}
+		if !bytes.Equal(got[off:off+n], sharedRecord(i, j, n)) {
+			return fmt.Sprintf("record %d of goroutine %d at offset %d is damaged", j, i, off)
+		}
+		if j != next[i] {
+			return fmt.Sprintf("goroutine %d's record %d appears where its record %d is due (an append that returned is lost or out of order)", i, j, next[i])
+		}
+		next[i]++
+		off += n
+	}
+	for i, n := range next {
+		if n != 12 {
+			return fmt.Sprintf("the log holds %d of the 12 records goroutine %d appended (appends that returned are lost)", n, i)
+		}
+	}
+	return ""
+}
+
 func checkContend(t ev.TB, c ContendCase) {
 	msg, inconcl := runContend(c)
 	if inconcl != "" {
@@ -279,7 +347,7 @@ func TestContention(t *testing.T) {
 	rapid.Check(t, func(t *rapid.T) {
 		c := ContendCase{
 			Impl: rapid.SampledFrom([]string{"mem", "mem", "dir"}).Draw(t, "impl"),
-			Mode: rapid.SampledFrom([]string{"same-create", "same-link", "distinct-create", "create-vs-atomic", "link-vs-atomic", "read-vs-append"}).Draw(t, "mode"),
+			Mode: rapid.SampledFrom([]string{"same-create", "same-link", "distinct-create", "create-vs-atomic", "link-vs-atomic", "read-vs-append", "shared-append"}).Draw(t, "mode"),
 			K:    rapid.IntRange(2, 8).Draw(t, "k"),
 		}
 		if c.Mode == "link-vs-atomic" && c.Impl == "dir" && models.KnownSwitch(swK1) {
@@ -312,6 +380,8 @@ func TestContention(t *testing.T) {
 			c.Rounds = 2 * ev.EnvInt("VERIF_CONTEND_ROUNDS", 300) / 10
 		case "read-vs-append":
 			c.Rounds = 1 + c.Rounds/30
+		case "shared-append":
+			c.Rounds = 1 + c.Rounds/15
 		}
 		checkContend(t, c)
 	})
